@@ -110,6 +110,19 @@ def _new_point(r, fam, inst):
         return None, "own_known_optimum", p.knownOptimum[0].point
     if c < 0.18:
         return np.array([r.choice((l, h)) for l, h in zip(lo, hi)], dtype=np.double), "corner", None
+    if c < 0.24:
+        # "round" coordinates (multiples of 0.05 / 0.25, integers, the centre): the places where a formula is EXACTLY zero
+        # (an active constraint of StronginC3, x = 0 for XSquared / Rastrigin) - a zero result must be stored like any other
+        def rnd(l, h):
+            q = r.choice((0.05, 0.25, 0.5, 1.0))
+            k0, k1 = math.ceil(l / q - 1e-9), math.floor(h / q + 1e-9)
+            return min(max(round(r.randint(k0, k1) * q, 2), l), h) if k0 <= k1 else (l + h) / 2
+        return np.array([rnd(l, h) for l, h in zip(lo, hi)], dtype=np.double), "round_lattice", None
+    if c < 0.28:
+        # coordinates of tiny magnitude (products underflow): legal points of every box that contains 0
+        tiny = (0.0, -0.0, 1e-200, -1e-200, 5e-324, 1e-310, 1e-160, -1e-160)
+        x = [min(max(r.choice(tiny), l), h) if r.random() < 0.7 else r.uniform(l, h) for l, h in zip(lo, hi)]
+        return np.array(x, dtype=np.double), "tiny_magnitude", None
     if fam == "gkls" and c < 0.45:
         m = p.function.GKLS_minima
         i = r.randint(0, 9)
@@ -267,8 +280,40 @@ def run_history(hseed, nops, grish_all=False):
             info["ops"]["revisit"] += 1
         return op
 
+    err0 = dict(np.geterr())
+
+    def probe_error_mode(t, op):
+        """numpy's process-wide floating-point error mode was changed by the operation: look for a point whose evaluation answers
+        differently under the mode the history started with and under the mode left behind (restored afterwards so that the rest
+        of the history is judged on its own)"""
+        now = dict(np.geterr())
+        tiny = (1e-200, -1e-200, 5e-324, 1e-160)
+        np.seterr(**err0)
+        extra = [{"fam": f, "args": a, "obj": oc.construct(f, a)} for f, a in (("xsquared", (2,)), ("rastrigin", (2,)), ("stronginc3", ()))]
+        np.seterr(**now)
+        for j, inst in enumerate(instances + extra):
+            lo, hi = oc.box(inst["obj"])
+            for tv in tiny:
+                x = np.array([min(max(tv, l), h) for l, h in zip(lo, hi)], dtype=np.double)
+                outs = []
+                for mode in (err0, now):
+                    np.seterr(**mode)
+                    res, e = oc.guarded(lambda: float(inst["obj"].Calculate(Point(x.copy(), []), FunctionValue()).value))
+                    outs.append(("raised " + e["error"]) if e else oc.f2h(res))
+                np.seterr(**now)
+                if outs[0] != outs[1]:
+                    v(t, "same_value", dict(op, then="evaluate instance %d (%s%s) at %s" % (j, inst["fam"], list(inst["args"]), oc.jl(x))),
+                      what="the operation changed numpy's process-wide error mode; the same evaluation answers differently before and after",
+                      error_mode_before=err0, error_mode_after=now, before=outs[0], after=outs[1])
+                    return
+        # no evaluation was found to answer differently: recorded, not a violation of C15
+        info["error_mode_changes_without_witness"] = info.get("error_mode_changes_without_witness", 0) + 1
+
     def post(t, op):
         """after every operation: module-level and instance tables are what they were"""
+        if dict(np.geterr()) != err0:
+            probe_error_mode(t, op)
+            np.seterr(**err0)
         mod = module_digests()
         for name in mod:
             if mod[name] != mod0[name]:
@@ -299,12 +344,74 @@ def run_history(hseed, nops, grish_all=False):
     return viol, info
 
 
+def zero_result_cases(r, tier):
+    """points where a shipped formula is EXACTLY zero in floating point (x = 0 for XSquared / Rastrigin, the objective of StronginC3
+    at (0, 1), an exactly active constraint of StronginC3 on the 0.05-lattice): found by scanning a lattice with the real
+    Calculate and a fresh holder.  Returns cases {"kind": "zero_result", family, args, function, point}."""
+    from iOpt.trial import Point, FunctionValue, FunctionType
+    cases = []
+    for fam, args in (("stronginc3", ()), ("xsquared", (1,)), ("xsquared", (3,)), ("rastrigin", (1,)), ("rastrigin", (2,))):
+        p = oc.construct(fam, args)
+        lo, hi = oc.box(p)
+        n = len(lo)
+        if n <= 2:
+            q = 0.05
+            axes = [[min(max(round(k * q, 2), l), h) for k in range(math.ceil(l / q - 1e-9), math.floor(h / q + 1e-9) + 1)]
+                    for l, h in zip(lo, hi)]
+            pts = [[a] for a in axes[0]] if n == 1 else [[a, b] for a in axes[0] for b in axes[1]]
+        else:
+            pts = [[0.0] * n, [-0.0] * n]
+        kinds = ["obj"] + (["c0", "c1", "c2"] if fam == "stronginc3" else [])
+        for kind in kinds:
+            found = 0
+            for x in pts:
+                fv = FunctionValue() if kind == "obj" else FunctionValue(FunctionType.CONSTRAINT, int(kind[1:]))
+                fv.value = 1.0
+                val, e = oc.guarded(lambda: p.Calculate(Point(np.array(x, dtype=np.double), []), FunctionValue(fv.type, fv.functionID)).value)
+                if e is None and val == 0:
+                    cases.append({"kind": "zero_result", "family": fam, "args": list(args), "function": kind, "point": x})
+                    found += 1
+                    if found >= (6 if tier == "quick" else 40):
+                        break
+    return cases
+
+
+def check_zero_result(case):
+    """the same evaluation through a holder that already holds another number (a reused holder), and through a shared one"""
+    from iOpt.trial import Point, FunctionValue, FunctionType
+    p = oc.construct(case["family"], tuple(case["args"]))
+    kind = case["function"]
+    viol = []
+    for mode in ("prefilled", "reused_after_another_point"):
+        fv = FunctionValue() if kind == "obj" else FunctionValue(FunctionType.CONSTRAINT, int(kind[1:]))
+        if mode == "prefilled":
+            fv.value = 12345.678
+        else:
+            lo, hi = oc.box(p)
+            p.Calculate(Point(np.array([l + 0.37 * (h - l) for l, h in zip(lo, hi)], dtype=np.double), []), fv)
+        before = fv.value
+        ret, e = oc.guarded(lambda: p.Calculate(Point(np.array(case["point"], dtype=np.double), []), fv))
+        got = None if e else getattr(ret, "value", None)
+        if e is not None or ret is not fv or got != 0:
+            viol.append({"property": "C15", "clause": "holder", "kind": "zero_result", "case": case, "op": dict(case, holder=mode),
+                         "observed": {"what": "the function is exactly 0 at this point (fresh holder), but through a holder that already "
+                                              "held another number the value 0 was not stored / returned",
+                                      "holder_held_before": repr(before), "holder_value_after": repr(getattr(fv, "value", None)),
+                                      "returned_is_the_holder": ret is fv, "error": e}})
+    return viol
+
+
 def run(tier, r):
     t0 = time.time()
+    zc, zerr = oc.guarded(zero_result_cases, r, tier)
+    zviol = []
+    for c in (zc or []):
+        zv, e = oc.guarded(check_zero_result, c)
+        zviol += zv or []
     max_hist = 80 if tier == "quick" else 300      # fixed schedule: everything is a function of r only
     grish_all = tier == "thorough"
-    violations, samples, seen = [], [], set()
-    stats = {"histories": 0, "ops": {}, "families": {}, "point_tags": {}, "holder_modes": {}, "constraint_evals": 0,
+    violations, samples, seen = list(zviol), [], set()
+    stats = {"zero_result_points": len(zc or []), "histories": 0, "ops": {}, "families": {}, "point_tags": {}, "holder_modes": {}, "constraint_evals": 0,
              "instances": 0, "distinct_points": 0, "history_lengths": []}
     nontrivial = 0
     for hno in range(max_hist):
@@ -343,6 +450,9 @@ def run(tier, r):
 
 
 def _replay_inproc(case):
+    if case.get("kind") == "zero_result":
+        viol = check_zero_result(case["case"])
+        return {"reproduced": bool(viol), "detail": viol[0]["observed"] if viol else {}}
     viol, info = run_history(case["hseed"], case["nops"], case.get("grish_all", False))
     hit = [c for c in viol if c["clause"] == case["clause"] and c["op_index"] == case["op_index"]]
     return {"reproduced": bool(hit), "detail": hit[0]["observed"] if hit else {"violations_found": len(viol)}}
